@@ -3,7 +3,10 @@
 Tie to the code: (a) tables regenerated from the source (status order, run_test's except ladder, the CLI exit rule)
 feed `decide` theorems; (b) the real consumer generator and the real worker are driven deterministically against the
 Lean model; (c) real multi-threaded engine runs against a scripted loopback API with single faults injected at each
-stage are judged by the reference predicate "problem ⇒ reported ∧ exit ≠ 0; exit 0 ⇒ every operation closed".
+stage are judged by the reference predicate "problem ⇒ reported ∧ exit ≠ 0; exit 0 ⇒ every operation closed";
+(d) the CLI reporting layer (`ExecutionContext.on_event` -> `Statistic.on_scenario_finished`, `exit_code`): generated
+histories of real events and the streams of real engine runs go through the real context, which is compared with the
+Lean model of the failure store and judged by its specification (harness/corr/c05_stat.py).
 """
 from __future__ import annotations
 
@@ -14,6 +17,7 @@ import hypothesis.errors
 import requests
 
 from harness import engine_common as E
+from harness.corr import c05_stat
 from harness.gen_engine_tables import render
 
 logging.getLogger("werkzeug").setLevel(logging.ERROR)
@@ -97,7 +101,7 @@ def fault_runs(chk, n_each):
                                    "phases": [p.name for p in phases], "stream": ps, "exit": exit_code})
 
 
-def behaviour_runs(chk, n):
+def behaviour_runs(chk, n, streams=None):
     """scripted API behaviours × configurations: the reference predicate on the real stream"""
     from schemathesis.engine.phases import PhaseName
     rng = chk.rng
@@ -123,6 +127,9 @@ def behaviour_runs(chk, n):
             evs = E.run_engine(schema, cfg)
         ps = E.plan_canon(evs)
         exit_code = E.exit_code_of(evs)
+        if streams is not None:
+            streams.append((evs, {"engine_run": {"bad_from_call": bad, "workers": workers, "phases": [p.name for p in phases],
+                                                 "continue_on_failure": cof}}))
         failing = [e for e in ps if e["k"] == "ScenarioFinished" and e["st"] in ("failure", "error")]
         # the failure is recorded with the request that caused it
         for ev in evs:
@@ -243,8 +250,28 @@ def run(chk):
         pass
     ladder_runs(chk)
     fault_runs(chk, chk.budget(2, 12))
-    for _ in behaviour_runs(chk, chk.budget(14, 150)):
+    streams: list = []
+    for _ in behaviour_runs(chk, chk.budget(14, 150), streams):
         pass
+    # the CLI reporting layer: what ExecutionContext makes of the streams (failure store, counters, exit code)
+    import time as _time
+    t0 = _time.time()
+    c05_stat.run_all(chk, streams)
+    chk.notes.append(f"cli-context / cli-execute mechanisms took {_time.time() - t0:.1f}s")
+    chk.proved += ["statistic_keeps_every_failure / statistic_failure_with_its_request / statistic_reports_nothing_else / "
+                   "statistic_store_only_grows / statistic_counters (all histories of finished scenarios with distinct "
+                   "case ids)", "statistic_satisfies_judge (the judge applied to the real store accepts the model's store)",
+                   "distinct_case_ids_needed, overwrite_variant_loses_failure (kernel-checked witnesses)",
+                   "cli_context_spec, failure_reaches_report_and_exit, cli_exit_for_failing_unit_phase",
+                   "cli_execute_no_fault, cli_exit_zero_only_if_clean (`_execute` with a handler fault at any event)"]
+    chk.assumptions += ["case ids are pairwise distinct - the explicit hypothesis of the store theorems (necessity witness "
+                        "distinct_case_ids_needed); the code draws them as 6 random base-62 characters (generate_random_case_id, "
+                        "62^6 values), so distinctness is probabilistic; it is checked on every stream of the run"]
+    chk.sampled_only += ["Statistic.tested_operations and the text rendered by display_failures are judged by the Python "
+                         "oracle only (not in the Lean model)",
+                         "FatalError path (loader error, exception escaping the engine stream) through the real execute() "
+                         "with the real console handler: 4 runs, exit code must be non-zero"]
+    chk.partial += ["Statistic.extraction_failures (stateful link extraction) is not modelled"]
     # the quantifier's "all single internal faults injected at each stage of the per-operation pipeline": the stages are
     # every call site reached by a traced real run, not a hand-picked list
     from harness import fault_sweep
@@ -260,6 +287,9 @@ def replay(chk, data):
     if (data.get("replay") or {}).get("mechanism") == "fault-sweep":
         from harness import fault_sweep
         return fault_sweep.replay(chk, data["replay"])
+    if (data.get("replay") or {}).get("mechanism") == "cli-context":
+        print(data.get("what"))
+        return c05_stat.replay(chk, data["replay"])
     print(data.get("what"))
     print(json.dumps(data.get("replay"), indent=1, default=str)[:6000])
     if data["signature"] == KF_RACE:
